@@ -110,6 +110,14 @@ def runner(rep, tier, seed, replay):
             # the quoted '*' etc. of shape 3 must stay literal even though files exist
             jobs.append({"entry": "c", "text": line, "files": files, "timeout": 6, "want_files": False})
             meta.append(("glob", pat, line, b, a, words, {"t": pat, "files": files, "feat": {"pattern": pat, "hidden_in_pop": any(os.path.basename(p).startswith(".") for p in pop), "blank_in_pop": any(" " in p for p in pop), "nomatch": not m}}, False, None))
+    # ---- ranges whose bounds are next to the limits of the machine integers (the step past the bound must not overflow)
+    big = 2147483647
+    for t, words in (("{%d..%d}" % (big - 1, big), [str(big - 1), str(big)]), ("{1..%d..%d}" % (big, big), ["1"]),
+                     ("{%d..%d}" % (-big, -big - 1), [str(-big), str(-big - 1)]), ("x{%d..%d..%d}" % (big, big - 1, big), ["x%d" % big]),
+                     ("{%d..%d..3}y" % (big - 4, big), ["%dy" % (big - 4), "%dy" % (big - 1)])):
+        line, b, a = place(t, stable_hash(t))
+        jobs.append({"entry": "c", "text": line, "timeout": 6, "want_files": False})
+        meta.append(("range", "limits", line, b, a, words, {"t": t, "feat": {"limits": True}}, False, None))
     # ---- tilde (fixed table; HOME is the scratch home)
     for w, kind in [("~", "home"), ("~/a", "home-slash"), ("a~", "literal"), ("'~'", "quoted"), ('"~/x"', "quoted"), ("x/~", "literal"), ("~a", "other-user")]:
         line = "vpa L %s R" % w
